@@ -649,6 +649,10 @@ def _split_msh(content):
         if len(seps) > len(set(seps)):
             raise InvalidEncodingChars("Found duplicate encoding chars")
 
+        if any(c.isspace() for c in seps):
+            # like the field separator, an encoding char cannot be a blank (the value of MSH-2 is stripped)
+            raise InvalidEncodingChars("Found blank encoding chars")
+
         try:
             comp_sep, rep_sep, escape, sub_sep = seps
             trunc_sep = None
